@@ -147,7 +147,8 @@ std::shared_ptr<IFeature> BaseTagHDF5::getFeature(const std::string &name_or_id)
                 H5Group gr = g->openGroup(g->objectName(i), false);
                 std::shared_ptr<FeatureHDF5> feat = std::make_shared<FeatureHDF5>(file(), block(), gr);
                 std::shared_ptr<base::IDataArray> da = feat->data();
-                if (da->name() == name_or_id || da->id() == name_or_id) {
+                // the feature's array may have been deleted: then there is nothing to compare
+                if (da && (da->name() == name_or_id || da->id() == name_or_id)) {
                     feature = std::make_shared<FeatureHDF5>(file(), block(), gr);
                     break;
                 }
@@ -160,7 +161,7 @@ std::shared_ptr<IFeature> BaseTagHDF5::getFeature(const std::string &name_or_id)
 
 std::shared_ptr<IFeature>  BaseTagHDF5::getFeature(ndsize_t index) const {
     boost::optional<H5Group> g = feature_group(false);
-    std::string id = g->objectName(index);
+    std::string id = g ? g->objectName(index) : "";
     return getFeature(id);
 }
 
